@@ -35,7 +35,7 @@ for pid in pids:
     for seed in ('0', '1', '2'):
         env = dict(os.environ, HS_REPO=wt, VERIF_SEED=seed)
         t0 = time.time()
-        r = run(['/verif/check', pid, '--no-lean'] if pid != 'C06' else ['/verif/check', pid], env=env)
+        r = run(['/verif/check', pid, '--no-lean'] if (pid != 'C06' or '--nolean' in sys.argv) else ['/verif/check', pid], env=env)
         v = [l for l in r.stdout.decode().split('\n') if l.startswith('VIOLATION')]
         outs.append({'seed': int(seed), 'exit': r.returncode, 'violations': len(v), 'wall_s': round(time.time() - t0, 1)})
     checks[pid] = outs
@@ -44,8 +44,9 @@ res['caught_by'] = sorted(p for p, o in checks.items() if any(x['exit'] == 1 for
 res['caught_every_seed_by'] = sorted(p for p, o in checks.items() if all(x['exit'] == 1 for x in o))
 subprocess.run(['git', '-C', '/repo', 'worktree', 'remove', '--force', wt])
 # C06 regenerates the table from the mutant: restore it from /repo
-subprocess.run(['/venv/bin/python', '/verif/harness/translate_ops.py'], stdout=subprocess.DEVNULL)
-if 'C06' in pids:      # ... and rebuild the driver from the restored table
+if '--nolean' not in sys.argv:
+    subprocess.run(['/venv/bin/python', '/verif/harness/translate_ops.py'], stdout=subprocess.DEVNULL)
+if 'C06' in pids and '--nolean' not in sys.argv:      # ... and rebuild the driver from the restored table
     subprocess.run('cd /verif/lean && lake build hsdriver HealSparse', shell=True, stdout=subprocess.DEVNULL, stderr=subprocess.DEVNULL)
 d = '/verif/seeded/%s' % mid
 os.makedirs(d, exist_ok=True)
